@@ -188,6 +188,9 @@ func (b *Bundle) recompiler(reg *template.Registry) {
 			// Add it back, after a delay.
 			if ev.Op == fsnotify.Rename || ev.Op == fsnotify.Remove {
 				time.Sleep(10 * time.Millisecond)
+				// fsnotify keeps its own entry for a renamed file, and Add
+				// is a no-op for a path it believes is still watched.
+				b.watcher.Remove(ev.Name)
 				if err := b.watcher.Add(ev.Name); err != nil {
 					Logger.Println(err)
 				}
